@@ -334,6 +334,46 @@ func sweepC02(seed uint64, which int) []*world.Case {
 	return out
 }
 
+// scanResumeSweep: two fixed programs whose result is scanned while the machine
+// serving the scan dies at every gob message boundary (and the quarter points) of
+// every streamed body. Program 0 ends in a Fold, whose recomputed output has the
+// rows in another order; program 1 is map-only, whose recomputed output is
+// byte-identical, so its scan has to resume and succeed.
+func scanResumeSweep(seed uint64, which int) []*world.Case {
+	s := seedFor(seed, "C02-scan-resume", which)
+	r := gen.New(s)
+	cfg := clusterConfig(r)
+	cfg.Procs, cfg.Parallelism, cfg.Chunk = 1, 2, 8
+	cfg.Keepalive = []string{"5s", "15s", "2s"}
+	var sp *spec.Spec
+	if which == 0 {
+		sp = &spec.Spec{Tag: "a", Nodes: []spec.Node{
+			{Op: "readerfunc", KT: "int", N: 100, Card: 200, Shards: 3, DSeed: 377},
+			{Op: "fold", Fn: "cnt", In: []int{0}}}}
+	} else {
+		sp = &spec.Spec{Tag: "a", Nodes: []spec.Node{
+			{Op: "const", KT: "int", N: 100, Card: 200, Shards: 3, DSeed: 377},
+			{Op: "map", Fn: "inc", M: 1, In: []int{0}}}}
+	}
+	if _, err := sp.Types(); err != nil {
+		panic(fmt.Sprintf("scanResumeSweep: %v", err))
+	}
+	base := &world.Case{Format: 1, Property: "C02", Seed: s, Config: cfg,
+		Script: []world.Step{{Op: "run", ID: "r1", Func: "prog0", Spec: sp, MustSucceed: true}, {Op: "scan", Of: "r1", MustSucceed: true}},
+		Oracle: world.Oracle{Rows: true, Liveness: true}}
+	evs, ro := recon(base)
+	if ro.Verdict != "ok" {
+		return []*world.Case{base}
+	}
+	var out []*world.Case
+	for _, f := range midStreamLosses(evs, 0) {
+		c := cloneCase(base)
+		c.Faults = []*simnet.Fault{f}
+		out = append(out, c)
+	}
+	return out
+}
+
 // C02 — machine loss gives correct rows or an error, never wrong rows or a hang.
 func C02(tier string, seed uint64) int {
 	nsweep := 2
@@ -363,10 +403,16 @@ func C02(tier string, seed uint64) int {
 		sweep = append(sweep, sweepC02(seed, 7)...)
 		nsweep++
 	}
+	if os.Getenv("VERIF_C02_SWEEP_KINDS") == "" {
+		for k := 0; k < 2; k++ {
+			sweep = append(sweep, scanResumeSweep(seed, k)...)
+		}
+		nsweep += 2
+	}
 	fmt.Printf("verif: C02 single-fault sweep: %d cases over %d base programs\n", len(sweep), nsweep)
 	b := &Batch{
 		Property: "C02", Tier: tier, Seed: seed, Level: "fault_enumeration",
-		Rule: "fault-suite programs (map-only, reduce, cogroup, fold, multi-stage, reused results) on the simulated cluster; (a) sweep: for each base program, one run per (RPC seam event of the fault-free run x {kill callee, kill each other machine, drop Worker.Run reply}); (b) seeded plans of 1-4 faults (kill callee/bystander, drop, stall, cut-stream) placed on seam events of a reconnaissance run, with or without replacement machines; oracle: success with rows == reference, or error; no hang within 4h simulated; success required when at most 2 kills and capacity remains; distinct = distinct (ordered seam-event sequence, per-step result digest)",
+		Rule: "fault-suite programs (map-only, reduce, cogroup, fold, multi-stage, reused results) on the simulated cluster; (a) sweep: for each base program, one run per (RPC seam event of the fault-free run x {kill callee, kill each other machine, drop Worker.Run reply}) and per (streamed Worker.Read body x {serving machine dies after 1/4, 1/2, 3/4 of the body and at gob message boundaries}); two fixed scan-resume programs (Fold output, map-only output) swept at every message boundary of every streamed body; (b) seeded plans of 1-4 faults (kill callee/bystander, drop, stall, cut-stream) placed on seam events of a reconnaissance run, with or without replacement machines; oracle: success with rows == reference, or error; no hang within 4h simulated; success required when at most 2 kills and capacity remains; distinct = distinct (ordered seam-event sequence, per-step result digest)",
 		Gen: func(i int) *world.Case {
 			if i < len(sweep) {
 				return sweep[i]
